@@ -4,10 +4,15 @@ import PnaVerif.Lemmas.CliEdit
 Model: `Cli.transform` (both solid strategies) with the per-command entry functions.  Stated at
 the level of the entries the library returns (`entriesOf`), for every archive, every selection
 predicate (any glob oracle), every argument:
-* `*_spec` — the result is the original entry list with exactly the targeted attribute of
-  exactly the selected entries changed (`map`) resp. exactly the selected entries removed
-  (`filter`): order, names, data, sizes, timestamps, permissions, xattrs and private chunks of
-  everything else are carried over (frame + target + order in one statement);
+* `*_spec` — the result is the entry list the strategy hands on (`writtenOf`) with exactly the
+  targeted attribute of exactly the selected entries changed (`map`) resp. exactly the selected
+  entries removed (`filter`): order, names, data, sizes, timestamps, permissions, xattrs and
+  private chunks of everything else are carried over (frame + target + order in one statement);
+* `handed_on_*` — what the strategy hands on is the archive's own entry list: identical under
+  `--keep-solid` and whenever no block is encrypted, and otherwise identical up to the stored form
+  (codec, cipher, mode) of the file entries of encrypted blocks, which `--unsolid` must write
+  again under the block's cipher (the `fix:` for the plaintext leak): same order, names, kinds,
+  contents and every attribute;
 * `*_idem` — repeating the same edit changes nothing further;
 * `keep_solid_structure` — `--keep-solid` preserves the solid blocks, their header options and
   their own unknown chunks.
@@ -16,9 +21,9 @@ namespace Pna.C10
 open Pna Pna.Cli
 
 theorem delete_spec (s : Strategy) (sel excl : Bytes → Bool) (a : Archive) :
-    entriesOf (transform s (deleteF sel excl) a) = (entriesOf a).filter (fun e => !(sel e.name && !excl e.name)) := by
-  rw [entriesOf_transform]
-  induction entriesOf a with
+    entriesOf (transform s (deleteF sel excl) a) = (writtenOf s a).filter (fun e => !(sel e.name && !excl e.name)) := by
+  rw [entriesOf_transform _ _ (respects_delete sel excl)]
+  induction writtenOf s a with
   | nil => rfl
   | cons e l ih =>
     simp only [List.filterMap_cons, List.filter_cons, deleteF]
@@ -26,54 +31,81 @@ theorem delete_spec (s : Strategy) (sel excl : Bytes → Bool) (a : Archive) :
 
 theorem chmod_spec (s : Strategy) (sel : Bytes → Bool) (m : Mode) (a : Archive) :
     entriesOf (transform s (chmodF sel m) a)
-      = (entriesOf a).map (fun e => if sel e.name then { e with mode := e.mode.map m.applyTo } else e) := by
-  rw [entriesOf_transform, ← filterMap_some_map]
+      = (writtenOf s a).map (fun e => if sel e.name then { e with mode := e.mode.map m.applyTo } else e) := by
+  rw [entriesOf_transform _ _ (respects_chmod sel m), ← filterMap_some_map]
   congr 1; funext e; simp only [chmodF]; split <;> rfl
 
 theorem chown_spec (s : Strategy) (sel : Bytes → Bool) (u g : Option (Nat × Bytes)) (a : Archive) :
     entriesOf (transform s (chownF sel u g) a)
-      = (entriesOf a).map (fun e => if sel e.name then
+      = (writtenOf s a).map (fun e => if sel e.name then
           { e with owner := e.owner.map fun o =>
               ⟨(u.getD (o.uid, o.uname)).1, (u.getD (o.uid, o.uname)).2, (g.getD (o.gid, o.gname)).1, (g.getD (o.gid, o.gname)).2⟩ }
         else e) := by
-  rw [entriesOf_transform, ← filterMap_some_map]
+  rw [entriesOf_transform _ _ (respects_chown sel u g), ← filterMap_some_map]
   congr 1; funext e; simp only [chownF]; split <;> rfl
 
 theorem xattr_spec (s : Strategy) (sel : Bytes → Bool) (set : Option (Bytes × Bytes)) (rm : Option Bytes) (a : Archive) :
     ∃ g : List (Bytes × Bytes) → List (Bytes × Bytes),
       entriesOf (transform s (xattrF sel set rm) a)
-        = (entriesOf a).map (fun e => if sel e.name then { e with xattrs := g e.xattrs } else e) := by
+        = (writtenOf s a).map (fun e => if sel e.name then { e with xattrs := g e.xattrs } else e) := by
   refine ⟨fun xs =>
     let m := imCollect xs
     let m := match set with | some (k, v) => imInsert m k v | none => m
     match rm with | some k => m.filter (·.1 != k) | none => m, ?_⟩
-  rw [entriesOf_transform, ← filterMap_some_map]
+  rw [entriesOf_transform _ _ (respects_xattr sel set rm), ← filterMap_some_map]
   congr 1; funext e; simp only [xattrF]; split <;> rfl
 
 theorem strip_spec (s : Strategy) (o : StripOpts) (a : Archive) :
     (entriesOf (transform s (stripF o) a)).map (fun e => (e.name, e.kind, e.data, e.rawSize))
-      = (entriesOf a).map (fun e => (e.name, e.kind, e.data, e.rawSize)) ∧
+      = (writtenOf s a).map (fun e => (e.name, e.kind, e.data, e.rawSize)) ∧
     (entriesOf (transform s (stripF o) a)).length = (entriesOf a).length := by
-  rw [entriesOf_transform]
-  have : (entriesOf a).filterMap (stripF o) = (entriesOf a).map (fun e => (stripF o e).getD e) := by
+  rw [entriesOf_transform _ _ (respects_strip o)]
+  have : (writtenOf s a).filterMap (stripF o) = (writtenOf s a).map (fun e => (stripF o e).getD e) := by
     rw [← filterMap_some_map]; congr 1
   rw [this]
   constructor
   · rw [List.map_map]; congr 1
-  · simp
+  · have := congrArg List.length (written_content s a)
+    simpa using this
+
+/-- What the strategy hands on: the archive's entries, … -/
+theorem handed_on_keep_solid (a : Archive) : writtenOf .keepSolid a = entriesOf a := rfl
+
+/-- … also under `--unsolid` when no block is encrypted, … -/
+theorem handed_on_plain (s : Strategy) (a : Archive)
+    (hp : ∀ i ∈ a, match i with | .normal _ => True | .solid h _ _ => h.getD 3 0 = 0) :
+    writtenOf s a = entriesOf a := written_plain s a hp
+
+/-- … and in every case the same entries up to the stored form: same order, names, kinds, contents,
+    sizes, timestamps, permissions, extended attributes and private chunks. -/
+theorem handed_on_content (s : Strategy) (a : Archive) :
+    (writtenOf s a).map LEntry.content = (entriesOf a).map LEntry.content := written_content s a
+
+/-- The stored form that replaces the block's: a file entry of an encrypted block comes out under
+    the block's codec, cipher and mode — never in the clear. -/
+theorem unsolid_keeps_cipher (h : Bytes) (e : LEntry) (he : h.getD 3 0 ≠ 0) (hk : e.kind = 0) :
+    (standalone h e).data.take 3 = [h.getD 2 0 + 48, h.getD 3 0 + 48, h.getD 4 0 + 48] := by
+  have : h[3]?.getD 0 ≠ 0 := by simpa [List.getD] using he
+  simp [standalone, this, hk, List.getD]
 
 /-- `--keep-solid`: blocks, header options and block-level unknown chunks are preserved. -/
 theorem keep_solid_structure (f : LEntry → Option LEntry) (a : Archive) :
     solidFrames (transform .keepSolid f a) = solidFrames a := keepSolid_frames f a
 
 /-- generic idempotence at entry level -/
-theorem transform_idem (s : Strategy) (f : LEntry → Option LEntry) (h : ∀ e e', f e = some e' → f e' = some e') (a : Archive) :
+theorem transform_idem (s : Strategy) (f : LEntry → Option LEntry) (hf : Respects f)
+    (h : ∀ e e', f e = some e' → f e' = some e') (a : Archive) :
     entriesOf (transform s f (transform s f a)) = entriesOf (transform s f a) := by
-  rw [entriesOf_transform, entriesOf_transform, filterMap_idem f h]
+  cases s
+  · rw [entriesOf_transform _ _ hf]
+    show List.filterMap f (writtenOf .unsolid (transformUnsolid f a)) = entriesOf (transformUnsolid f a)
+    rw [written_unsolid, entriesOf_unsolid f hf, filterMap_idem f h]
+  · show entriesOf (transformKeepSolid f (transformKeepSolid f a)) = entriesOf (transformKeepSolid f a)
+    rw [entriesOf_keepSolid, entriesOf_keepSolid, filterMap_idem f h]
 
 theorem delete_idem (s : Strategy) (sel excl : Bytes → Bool) (a : Archive) :
     entriesOf (transform s (deleteF sel excl) (transform s (deleteF sel excl) a)) = entriesOf (transform s (deleteF sel excl) a) := by
-  apply transform_idem
+  apply transform_idem _ _ (respects_delete sel excl)
   intro e e' h
   simp only [deleteF] at h ⊢
   split at h
@@ -84,7 +116,7 @@ theorem chmod_apply_idem (m : Mode) (x : Nat) : m.applyTo (m.applyTo x) = m.appl
 
 theorem chmod_idem (s : Strategy) (sel : Bytes → Bool) (m : Mode) (a : Archive) :
     entriesOf (transform s (chmodF sel m) (transform s (chmodF sel m) a)) = entriesOf (transform s (chmodF sel m) a) := by
-  apply transform_idem
+  apply transform_idem _ _ (respects_chmod sel m)
   intro e e' h
   simp only [chmodF] at h ⊢
   split at h
@@ -100,7 +132,7 @@ theorem chmod_idem (s : Strategy) (sel : Bytes → Bool) (m : Mode) (a : Archive
 
 theorem strip_idem (s : Strategy) (o : StripOpts) (a : Archive) :
     entriesOf (transform s (stripF o) (transform s (stripF o) a)) = entriesOf (transform s (stripF o) a) := by
-  apply transform_idem
+  apply transform_idem _ _ (respects_strip o)
   intro e e' h
   simp only [stripF, Option.some.injEq] at h ⊢
   subst h
@@ -111,6 +143,12 @@ theorem strip_idem (s : Strategy) (o : StripOpts) (a : Archive) :
 example : entriesOf (transform .unsolid (chmodF (fun n => n == [97]) (.minus 2 2))
     [.normal { name := [97], kind := 0, data := [], mode := some 0o664 }, .solid [0] [] [{ name := [98], kind := 0, data := [], mode := some 0o664 }]])
   = [{ name := [97], kind := 0, data := [], mode := some 0o644 }, { name := [98], kind := 0, data := [], mode := some 0o664 }] := by
+  decide +kernel
+
+-- non-vacuity of the stored-form clause: a file of an AES/CTR block comes out as AES/CTR, its content digest unchanged
+example : entriesOf (transform .unsolid (chmodF (fun _ => false) (.num 0))
+    [.solid [0, 13, 4, 1, 1] [] [{ name := [98], kind := 0, data := [48, 48, 48, 7, 7] }, { name := [99], kind := 2, data := [48, 48, 48, 9] }]])
+  = [{ name := [98], kind := 0, data := [52, 49, 49, 7, 7] }, { name := [99], kind := 2, data := [48, 48, 48, 9] }] := by
   decide +kernel
 
 end Pna.C10
